@@ -63,6 +63,18 @@ fn main() {
         "worker" => {
             worker::worker_main(props::entries::dispatch);
         }
+        "inproc" => {
+            // triage helper: run a C04 replay case in this process (for gdb): lv inproc <replay.json>
+            let text = std::fs::read_to_string(&args[2]).expect("read replay");
+            let file: serde_json::Value = serde_json::from_str(&text).expect("json");
+            let case: props::c04::Case = engine::replay_case(&file).expect("case");
+            let (entry, payload) = case.materialise();
+            if std::env::var("VERIF_DUMP").is_ok() {
+                std::fs::write("/tmp/case.bin", &payload).unwrap();
+            }
+            let (status, info) = worker::run_guarded(entry, &payload, props::entries::dispatch);
+            println!("{} {}", status, info);
+        }
         "digest-server" => {
             engine::quiet_panics();
             props::c08::digest_server();
